@@ -22,7 +22,8 @@ Oracles
   attrs   the (address, tls, via, transport) of every Server connection is the same at every SendData on it.
   guard   at response time, assigning a different .address / .via to the flow's open server connection and to every
           open wire connection raises RuntimeError and leaves the attribute unchanged.
-  failed  no SendData on a connection object whose OpenConnection failed or whose .error is set and whose transport is gone.
+  failed  no SendData on a connection object whose OpenConnection failed or whose .error is set and whose transport is gone;
+          no flow ends up with a server connection object whose OpenConnection failed.
 """
 import re
 
@@ -40,7 +41,7 @@ LEVEL = "exploration"
 ENGINE = "sansio"
 BUDGET = {"quick": (260, 20), "thorough": (12000, 230)}
 WORKERS = {"quick": 4, "thorough": 16}
-REQUIRED = ["obj", "wire", "wire.direct", "wire.via_connect", "wire.via_plain", "wire.tls", "attrs", "guard.address", "guard.via", "reuse.same_conn", "fault.connect_failed", "fault.tls_failed", "fault.server_close", "client.h1", "client.h2"]
+REQUIRED = ["obj", "wire", "failed", "failed.flow_conn", "wire.direct", "wire.via_connect", "wire.via_plain", "wire.tls", "attrs", "guard.address", "guard.via", "reuse.same_conn", "fault.connect_failed", "fault.tls_failed", "fault.server_close", "client.h1", "client.h2"]
 TECHNIQUE = "runtime monitoring: sans-io history exploration, destination table at the request hook vs connection attributes at SendData time and peer-side sightings (real TLS / proxy / h2 peers)"
 RULE = (
     "case = (mode, client protocol h1|h2, history of 2-12 requests over <=4 destinations drawn from hosts x ports x scheme x via, "
@@ -231,6 +232,7 @@ def run_case(ctx, tctx, chain):
     # ---- policy: rewrites, destination table, object-level observation, guard probes
     dest = {}
     used = {}
+    flows = {}
     kinds = set()
     guard_viol = []
     counts = {"ga": 0, "gv": 0, "policy_guard": 0}
@@ -280,6 +282,7 @@ def run_case(ctx, tctx, chain):
             if hook.name == "request":
                 sc = f.server_conn
                 dest[tag] = (f.request.host, f.request.port, f.request.scheme == "https", sc.via, sc.transport_protocol)
+                flows[tag] = f
         elif hook.name == "responseheaders":
             sc = f.server_conn
             used[tag] = (tuple(sc.address) if sc.address else None, sc.tls, sc.via, sc.transport_protocol, id(sc), sc.error)
@@ -359,6 +362,10 @@ def run_case(ctx, tctx, chain):
         if c in failed_opens or (tstate is None and err):
             ctx.violation("write-on-failed-connection", {**witness, "conn": repr(c), "error": err, "data": head, "open_failed": c in failed_opens}, classify({"kind": "failed"}))
     ctx.count("failed", len(d.send_attrs))
+    for tag, f in flows.items():
+        ctx.count("failed.flow_conn")
+        if f.server_conn in failed_opens:
+            ctx.violation("flow-assigned-a-connection-whose-open-failed", {**witness, "tag": tag, "conn": repr(f.server_conn), "error": f.server_conn.error}, classify({"kind": "failed"}))
     for cid, (c, lst) in per_conn.items():
         ctx.count("attrs")
         if len({a for _, a in lst}) != 1:
